@@ -11,22 +11,28 @@ open Stgutg Stgutg.Aper Stgutg.Proofs.Bits
 
 def mkRd (l : Bits) (pos : Nat) : Rd := ⟨l, pos, l.length⟩
 
+/-- the input is a whole number of octets: whatever follows `bits` completes the last octet -/
 def RT {α : Type} (bits : Bits) (pos : Nat) (m : D α) (a : α) : Prop :=
-  ∀ tail, m (mkRd (bits ++ tail) pos) = .ok (a, mkRd tail (pos + bits.length))
+  ∀ tail, (pos + bits.length + tail.length) % 8 = 0 →
+    m (mkRd (bits ++ tail) pos) = .ok (a, mkRd tail (pos + bits.length))
 
 theorem D_pure_apply {α : Type} (a : α) (r : Rd) : (pure a : D α) r = .ok (a, r) := rfl
 theorem D_bind_apply {α β : Type} (m : D α) (f : α → D β) (r : Rd) :
     (m >>= f) r = match m r with | .ok (a, r') => f a r' | .error e => .error e := rfl
 
 theorem RT_pure {α : Type} (pos : Nat) (a : α) : RT [] pos (pure a : D α) a := by
-  intro tail; simp [D_pure_apply]
+  intro tail _; simp [D_pure_apply]
 
 theorem RT_bind {α β : Type} {b1 b2 : Bits} {pos : Nat} {m : D α} {f : α → D β} {a : α} {c : β}
     (h1 : RT b1 pos m a) (h2 : RT b2 (pos + b1.length) (f a) c) : RT (b1 ++ b2) pos (m >>= f) c := by
-  intro tail
-  rw [D_bind_apply, List.append_assoc, h1 (b2 ++ tail)]
+  intro tail ht
+  have e1 : (pos + b1.length + (b2 ++ tail).length) % 8 = 0 := by
+    rw [List.length_append] at ht ⊢; rw [← ht]; congr 1; omega
+  have e2 : (pos + b1.length + b2.length + tail.length) % 8 = 0 := by
+    rw [List.length_append] at ht; rw [← ht]; congr 1; omega
+  rw [D_bind_apply, List.append_assoc, h1 (b2 ++ tail) e1]
   dsimp only
-  rw [h2 tail, List.length_append, Nat.add_assoc]
+  rw [h2 tail e2, List.length_append, Nat.add_assoc]
 
 /-- sequencing with a unit-valued step -/
 theorem RT_seq {β : Type} {b1 b2 : Bits} {pos : Nat} {m : D Unit} {k : D β} {c : β}
@@ -37,7 +43,7 @@ theorem RT_congr_bits {α : Type} {b b' : Bits} {pos : Nat} {m : D α} {a : α} 
     RT b' pos m a := h ▸ hr
 
 theorem RT_getBits (b : Bits) (pos : Nat) (hne : b.length ≠ 0) : RT b pos (getBits b.length) b := by
-  intro tail
+  intro tail _
   unfold getBits mkRd
   simp only [hne, if_false, List.length_append]
   have : ¬ b.length > b.length + tail.length := by omega
@@ -58,7 +64,7 @@ theorem bitsToNat_replicate_false (k : Nat) : bitsToNat (List.replicate k false)
   | succ k ih => rw [List.replicate_succ, bitsToNat_cons, ih]; simp
 
 theorem RT_align (pos : Nat) : RT (alignBits pos) pos parseAlignBits () := by
-  intro tail
+  intro tail _
   unfold parseAlignBits alignBits padLen mkRd
   dsimp only
   by_cases h : pos % 8 > 0
@@ -344,5 +350,795 @@ theorem RT_enum (pos n : Nat) (params : Params) (bits : Bits)
             exact RT_bind (b1 := []) (b2 := []) (RT_pure _ 0) (RT_pure _ _))
           rw [List.append_nil] at this
           exact this
+
+/-! ### INTEGER -/
+
+theorem octetCount_bound (f n : Nat) (h : n < 256 ^ (f + 1)) :
+    n < 256 ^ (octetCount f (n >>> 8)) ∧ octetCount f (n >>> 8) ≤ f + 1 ∧ 1 ≤ octetCount f (n >>> 8) := by
+  induction f generalizing n with
+  | zero => simp [octetCount] at *; omega
+  | succ f ih =>
+    unfold octetCount
+    split
+    · rename_i h0
+      have : n < 256 := by
+        rw [Nat.shiftRight_eq_div_pow] at h0
+        have : n / 2 ^ 8 = 0 := h0
+        have e : (2 : Nat) ^ 8 = 256 := by decide
+        rw [e] at this
+        omega
+      simp; omega
+    · rename_i h0
+      have hm : n >>> 8 < 256 ^ (f + 1) := by
+        rw [Nat.shiftRight_eq_div_pow]
+        have e : (2 : Nat) ^ 8 = 256 := by decide
+        rw [e]
+        have : 256 ^ (f + 1 + 1) = 256 ^ (f + 1) * 256 := Nat.pow_succ ..
+        rw [this] at h
+        exact Nat.div_lt_of_lt_mul (by rw [Nat.mul_comm]; exact h)
+      have ⟨h1, h2, h3⟩ := ih (n >>> 8) hm
+      refine ⟨?_, by omega, by omega⟩
+      have e2 : 256 ^ (1 + octetCount f (n >>> 8 >>> 8)) = 256 * 256 ^ (octetCount f (n >>> 8 >>> 8)) := by
+        rw [Nat.add_comm, Nat.pow_succ, Nat.mul_comm]
+      rw [e2]
+      have hdiv : n >>> 8 = n / 256 := by
+        rw [Nat.shiftRight_eq_div_pow]
+      generalize 256 ^ octetCount f (n >>> 8 >>> 8) = K at h1 ⊢
+      rw [hdiv] at h1
+      omega
+
+theorem toInt64_small (n : Nat) (h : n < 2 ^ 63) : toInt64 n = n := by
+  unfold toInt64
+  have : n % 2 ^ 64 = n := Nat.mod_eq_of_lt (by omega)
+  simp only [this]
+  have h' : n < 9223372036854775808 := by have e : (2:Nat)^63 = 9223372036854775808 := by decide
+                                          omega
+  simp [h']
+
+theorem wrapInt64_small (i : Int) (h0 : 0 ≤ i) (h : i < 2 ^ 63) : wrapInt64 i = i := by
+  unfold wrapInt64
+  have hm : i % (2 ^ 64 : Int) = i := Int.emod_eq_of_lt h0 (by omega)
+  rw [hm]
+  have : toInt64 i.toNat = i.toNat := toInt64_small i.toNat (by omega)
+  rw [this]; omega
+
+theorem octetCount_le (f n k : Nat) (hk : 1 ≤ k) (h : n < 256 ^ k) : octetCount f (n >>> 8) ≤ k := by
+  induction f generalizing n k with
+  | zero => simp [octetCount]; omega
+  | succ f ih =>
+    unfold octetCount
+    split
+    · omega
+    · rename_i h0
+      have hdiv : n >>> 8 = n / 256 := by rw [Nat.shiftRight_eq_div_pow]
+      have hk2 : 2 ≤ k := by
+        cases hk' : k with
+        | zero => omega
+        | succ k' =>
+          cases k' with
+          | zero =>
+            subst hk'
+            have : n < 256 := by simpa using h
+            rw [hdiv] at h0
+            omega
+          | succ k'' => omega
+      have : n >>> 8 < 256 ^ (k - 1) := by
+        rw [hdiv]
+        have e : 256 ^ k = 256 ^ (k - 1) * 256 := by
+          have : k = (k - 1) + 1 := by omega
+          rw [this, Nat.pow_succ]; simp
+        rw [e] at h
+        exact Nat.div_lt_of_lt_mul (by rw [Nat.mul_comm]; exact h)
+      have := ih (n >>> 8) (k - 1) (by omega) this
+      omega
+
+theorem putBitsValue_ok64 (v n : Nat) (bits : Bits) (hn : n ≠ 0) (hn64 : n ≤ 64) (hv64 : v < 2 ^ 64)
+    (h : putBitsValue v n = .ok bits) : bits = natToBits n v ∧ v < 2 ^ n := by
+  by_cases hlt : n < 64
+  · exact putBitsValue_ok v n bits hn hlt h
+  · have hn' : n = 64 := by omega
+    subst hn'
+    unfold putBitsValue at h
+    simp at h
+    exact ⟨h.symm, hv64⟩
+
+theorem RT_int (pos : Nat) (v : Int) (params : Params) (bits : Bits) (lb ub : Int)
+    (hlb : params.valueLB = some lb) (hub : params.valueUB = some ub)
+    (hv1 : lb ≤ v) (hv2 : v ≤ ub) (hlb0 : 0 ≤ lb) (hub63 : ub < 2 ^ 63)
+    (hbig : ub - lb + 1 > 65536 → lb = 0)
+    (hs : params.sizeExt = false)
+    (h : appendInteger pos v params.valueExt params.valueLB params.valueUB = .ok bits) :
+    RT bits pos (leafDec .int params) (.int v) := by
+  unfold appendInteger at h
+  rw [hlb, hub] at h
+  have hnlt : ¬ v < lb := by omega
+  simp only [hnlt, if_false, hv2, if_true] at h
+  unfold leafDec
+  have hext := RT_extBits_leaf pos params hs
+  have hdec : ∀ (b2 : Bits) (pos2 : Nat), RT b2 pos2 (parseInteger false (some lb) (some ub)) v →
+      RT b2 pos2 (decLeaf .int params false false) (.int v) := by
+    intro b2 pos2 hp
+    unfold decLeaf
+    rw [hlb, hub]
+    have := RT_bind (f := fun k => (pure (Val.int k) : D Val)) hp (RT_pure _ (Val.int v))
+    rw [List.append_nil] at this
+    exact this
+  split at h
+  · -- range = 1
+    rename_i hr1
+    simp only [Except.ok.injEq] at h
+    rw [← h]
+    have hveq : ub = v := by omega
+    have := RT_bind (f := fun x => decLeaf .int params x.1 x.2) hext (c := .int v) (b2 := []) (by
+      dsimp only
+      apply hdec
+      unfold parseInteger
+      simp only [Bool.false_eq_true, if_false, hr1, if_true]
+      rw [hveq]
+      exact RT_pure _ v)
+    rw [List.append_nil] at this
+    exact this
+  · rename_i hr1
+    have hrpos : ¬ (ub - lb + 1 ≤ 0) := by omega
+    simp only [hrpos, if_false] at h
+    split at h
+    · -- constrained whole number
+      rename_i hr64
+      cases hc : appendConstraintValue (pos + (if params.valueExt = true then [false] else []).length) (ub - lb + 1) (v - lb).toNat with
+      | error e => rw [hc] at h; simp at h
+      | ok cb =>
+        rw [hc] at h
+        simp only [Except.ok.injEq] at h
+        rw [← h]
+        refine RT_bind hext ?_
+        dsimp only
+        apply hdec
+        unfold parseInteger
+        simp only [Bool.false_eq_true, if_false, hr1, hrpos, hr64, if_true]
+        have hcv := RT_constraintValue _ _ _ _ hc
+        have := RT_bind (f := fun (raw : Nat) => (pure (wrapInt64 ((raw : Int) + lb)) : D Int)) hcv (RT_pure _ _)
+        rw [List.append_nil] at this
+        have hw : wrapInt64 (((v - lb).toNat : Int) + lb) = v := by
+          have e : ((v - lb).toNat : Int) + lb = v := by omega
+          rw [e]; exact wrapInt64_small v (by omega) (by omega)
+        rw [hw] at this
+        exact this
+    · -- range above 64K: octet count − 1, align, minimal octets
+      rename_i hr64
+      have hl0 : lb = 0 := hbig (by omega)
+      subst hl0
+      have hv0 : ¬ v < 0 := by omega
+      simp only [hv0, if_false] at h
+      have hvn : v.toNat < 256 ^ (8 + 1) := by
+        have : v.toNat < 2 ^ 63 := by omega
+        have e : (256 : Nat) ^ (8 + 1) = 2 ^ 72 := by decide
+        rw [e]
+        exact Nat.lt_of_lt_of_le this (Nat.pow_le_pow_right (by decide) (by decide))
+      have ⟨hb1, hb2, hb3⟩ := octetCount_bound 8 v.toNat hvn
+      have hrl8 : octetCount 9 (v.toNat >>> 8) ≤ 8 := by
+        apply octetCount_le 9 v.toNat 8 (by decide)
+        have : v.toNat < 2 ^ 63 := by omega
+        have e : (256 : Nat) ^ 8 = 2 ^ 64 := by decide
+        rw [e]; omega
+      have hb9 := octetCount_bound 9 v.toNat (by
+        have : v.toNat < 2 ^ 63 := by omega
+        have e : (256 : Nat) ^ (9 + 1) = 2 ^ 80 := by decide
+        rw [e]
+        exact Nat.lt_of_lt_of_le this (Nat.pow_le_pow_right (by decide) (by decide)))
+      generalize hrl : octetCount 9 (v.toNat >>> 8) = rawLength at h hrl8 hb9
+      obtain ⟨hvlt, _, hr1'⟩ := hb9
+      have ⟨hw1, hw2⟩ := bitsForRange_pos ((rangeByteLen (ub - 0 + 1) : Nat) : Int)
+      cases hp1 : putBitsValue (rawLength - 1) (bitsForRange (rangeByteLen (ub - 0 + 1))) with
+      | error e => rw [hp1] at h; simp at h
+      | ok lenBits =>
+        rw [hp1] at h
+        dsimp only at h
+        cases hp2 : putBitsValue (v - 0).toNat (8 * rawLength) with
+        | error e => rw [hp2] at h; simp at h
+        | ok body =>
+          rw [hp2] at h
+          simp only [Except.ok.injEq] at h
+          rw [← h]
+          have hvv : (v - 0).toNat = v.toNat := by simp
+          rw [hvv] at hp2
+          have ⟨hbody, hvb⟩ := putBitsValue_ok64 v.toNat (8 * rawLength) body (by omega) (by omega) (by omega) hp2
+          rw [List.append_assoc, List.append_assoc]
+          refine RT_bind hext ?_
+          dsimp only
+          apply hdec
+          unfold parseInteger
+          simp only [Bool.false_eq_true, if_false, hr1, hrpos, hr64]
+          have hlen := RT_putBitsValue (pos + (if params.valueExt = true then [false] else []).length)
+            (rawLength - 1) _ lenBits hw1 hw2 hp1
+          refine RT_bind hlen ?_
+          have hrr : rawLength - 1 + 1 = rawLength := by omega
+          rw [hrr]
+          refine RT_seq (RT_align _) ?_
+          have hcomm : rawLength * 8 = 8 * rawLength := Nat.mul_comm _ _
+          rw [hcomm, hbody]
+          have hraw := RT_getBitsValue (8 * rawLength) v.toNat
+            (pos + (if params.valueExt = true then [false] else []).length + lenBits.length +
+              (alignBits (pos + (if params.valueExt = true then [false] else []).length + lenBits.length)).length)
+            (by omega) hvb (by omega)
+          have := RT_bind (f := fun (raw : Nat) => (pure (wrapInt64 (toInt64 raw + 0)) : D Int)) hraw (RT_pure _ _)
+          rw [List.append_nil] at this
+          have hw : wrapInt64 (toInt64 v.toNat + 0) = v := by
+            rw [toInt64_small v.toNat (by omega)]
+            have e : ((v.toNat : Nat) : Int) + 0 = v := by omega
+            rw [e]; exact wrapInt64_small v (by omega) (by omega)
+          rw [hw] at this
+          exact this
+
+/-! ### strings -/
+
+/-- below the fragmentation threshold the loop runs once: length determinant, alignment, content -/
+theorem fragLoop_small (unit : Nat) (sr : Int) (lb fuel pos rawLength : Nat) (payload : Bits) (h : rawLength < 16384) :
+    fragLoop unit sr lb (fuel + 1) pos rawLength payload =
+      match appendLength pos sr rawLength with
+      | .error e => .error e
+      | .ok lenBits =>
+        if rawLength + lb = 0 then .ok lenBits
+        else .ok (lenBits ++ alignBits (pos + lenBits.length) ++ payload.take ((rawLength + lb) * unit)) := by
+  unfold fragLoop
+  have h1 : ¬ rawLength > 65536 := by omega
+  have h2 : ¬ rawLength ≥ 16384 := by omega
+  simp only [h1, h2, if_false]
+  cases appendLength pos sr rawLength with
+  | error e => rfl
+  | ok lenBits =>
+    dsimp only
+    split
+    · rfl
+    · simp
+
+/-- the size preamble of the encoder and the bounds the decoder derives agree -/
+theorem sizePreamble_spec (len : Nat) (ext : Bool) (lbP ubP : Option Int) (pre : Bits) (lb ub sr : Int)
+    (hext : ext = true → lbP.isSome ∧ ubP.isSome) (hpair : ubP.isSome → lbP.isSome)
+    (h : sizePreamble len ext lbP ubP = .ok (pre, lb, ub, sr)) :
+    ∃ se : Bool, (pre = if ext then [se] else []) ∧ (ext = false → se = false) ∧
+      (sizeBounds se lbP ubP).1 = lb ∧ (sizeBounds se lbP ubP).2.2 = sr ∧
+      (sr = 1 → (sizeBounds se lbP ubP).2.1 = ub) := by
+  unfold sizePreamble at h
+  cases lbP with
+  | none =>
+    have : ext = false := by
+      cases ext with
+      | false => rfl
+      | true => have := hext rfl; simp at this
+    subst this
+    have hub : ubP = none := by
+      cases ubP with
+      | none => rfl
+      | some u => have := hpair rfl; simp at this
+    subst hub
+    simp only [Except.ok.injEq, Prod.mk.injEq] at h
+    obtain ⟨h1, h2, h3, h4⟩ := h
+    refine ⟨false, by simp [h1], fun _ => rfl, ?_, ?_, ?_⟩
+    · simp [sizeBounds, h2]
+    · simp [sizeBounds, h4]
+    · intro hsr; omega
+  | some l =>
+    cases ubP with
+    | none =>
+      have : ext = false := by
+        cases ext with
+        | false => rfl
+        | true => have := hext rfl; simp at this
+      subst this
+      simp only [Except.ok.injEq, Prod.mk.injEq] at h
+      obtain ⟨h1, h2, h3, h4⟩ := h
+      refine ⟨false, by simp [h1], fun _ => rfl, ?_, ?_, ?_⟩
+      · simp [sizeBounds, h2]
+      · simp [sizeBounds, h4]
+      · intro hsr; omega
+    | some u =>
+      dsimp only at h
+      split at h
+      · rename_i hle
+        simp only [Except.ok.injEq, Prod.mk.injEq] at h
+        obtain ⟨h1, h2, h3, h4⟩ := h
+        refine ⟨false, ?_, fun _ => rfl, ?_, ?_, ?_⟩
+        · rw [← h1]
+        · simp [sizeBounds, h2]
+        · simp [sizeBounds, ← h4, h2]
+        · intro _; simp [sizeBounds, h3]
+      · rename_i hle
+        split at h
+        · simp [err] at h
+        · rename_i hne
+          have hext' : ext = true := by cases ext <;> simp_all
+          simp only [Except.ok.injEq, Prod.mk.injEq] at h
+          obtain ⟨h1, h2, h3, h4⟩ := h
+          refine ⟨true, ?_, ?_, ?_, ?_, ?_⟩
+          · rw [← h1, hext']; rfl
+          · intro hf; rw [hext'] at hf; cases hf
+          · simp [sizeBounds, h2]
+          · simp [sizeBounds, h4]
+          · intro hsr; omega
+
+theorem RT_takeOctets (pos : Nat) (bs : Bytes) : RT (bytesToBits bs) pos (takeOctets bs.length) bs := by
+  intro tail _
+  unfold takeOctets mkRd
+  have hl := bytesToBits_length bs
+  simp only [List.length_append, hl]
+  have : ¬ 8 * bs.length > 8 * bs.length + tail.length := by omega
+  simp only [this, if_false]
+  have ht : (bytesToBits bs ++ tail).take (8 * bs.length) = bytesToBits bs := by rw [← hl]; simp
+  have hd : (bytesToBits bs ++ tail).drop (8 * bs.length) = tail := by rw [← hl]; simp
+  rw [ht, hd, bitsToBytes_bytesToBits]
+  simp
+
+theorem RT_get {α : Type} (bits : Bits) (pos : Nat) (k : Rd → D α) (a : α)
+    (h : ∀ r, RT bits pos (k r) a) : RT bits pos (D.get >>= k) a := by
+  intro tail ht
+  rw [D_bind_apply]
+  exact h _ tail ht
+
+/-- one pass of the OCTET STRING loop on an unfragmented string -/
+theorem RT_octLoop (pos : Nat) (sr lb : Int) (bs : Bytes) (fuel : Nat) (lenBits : Bits)
+    (hlb : 0 ≤ lb) (hge : lb ≤ bs.length) (hlen : bs.length - lb.toNat < 16384)
+    (hL : appendLength pos sr (bs.length - lb.toNat) = .ok lenBits) :
+    RT (if bs.length = 0 then lenBits else lenBits ++ alignBits (pos + lenBits.length) ++ bytesToBits bs) pos
+      (parseOctetStringLoop sr lb (fuel + 1) []) bs := by
+  unfold parseOctetStringLoop
+  have hpl := RT_length pos sr (bs.length - lb.toNat) lenBits hlen hL
+  have hraw : (((bs.length - lb.toNat : Nat) : Int) + lb).toNat = bs.length := by omega
+  by_cases h0 : bs.length = 0
+  · simp only [h0, if_true]
+    have hb : bs = [] := List.length_eq_zero_iff.mp h0
+    have := RT_bind (f := fun (x : Nat × Bool) =>
+        (match x with
+        | (len, rep) =>
+          if ((len : Int) + lb).toNat = 0 then pure ([] : Bytes)
+          else do
+            parseAlignBits
+            let b ← takeOctets ((len : Int) + lb).toNat
+            if rep then parseOctetStringLoop sr lb fuel ([] ++ b) else pure ([] ++ b) : D Bytes))
+      hpl (c := bs) (b2 := []) (by
+        dsimp only
+        rw [hraw, h0]
+        simp only [if_true]
+        rw [hb]
+        exact RT_pure _ _)
+    rw [List.append_nil] at this
+    exact this
+  · simp only [h0, if_false]
+    rw [List.append_assoc]
+    refine RT_bind hpl ?_
+    dsimp only
+    rw [hraw]
+    simp only [h0, if_false]
+    refine RT_seq (RT_align _) ?_
+    have := RT_bind (f := fun (b : Bytes) => (if false = true then parseOctetStringLoop sr lb fuel ([] ++ b) else pure ([] ++ b) : D Bytes))
+      (RT_takeOctets (pos + lenBits.length + (alignBits (pos + lenBits.length)).length) bs) (c := bs) (b2 := []) (by
+        simp only [Bool.false_eq_true, if_false, List.nil_append]
+        exact RT_pure _ _)
+    rw [List.append_nil] at this
+    exact this
+
+/-- the size-extension bit written by the encoder is read back by `extBits` (no value-extension bit) -/
+theorem RT_extBits_sized (pos : Nat) (params : Params) (isSlice : Bool) (se : Bool)
+    (hv : (params.valueExt && !isSlice) = false) (hse : params.sizeExt = false → se = false) :
+    RT (if params.sizeExt then [se] else []) pos (extBits params isSlice) (se, false) := by
+  cases hs : params.sizeExt with
+  | false =>
+    have := hse hs; subst this
+    simpa using RT_extBits_none pos params isSlice hs hv
+  | true => simpa using RT_extBits_size pos params isSlice se hs hv
+
+/-- what the parameters of a sized type must satisfy for the encoder and decoder to agree on the preamble -/
+def SizedParamsOK (params : Params) : Prop :=
+  (params.sizeExt = true → params.sizeLB.isSome ∧ params.sizeUB.isSome) ∧
+  (params.sizeUB.isSome → params.sizeLB.isSome) ∧
+  (∀ l, params.sizeLB = some l → 0 ≤ l) ∧
+  (∀ u, params.sizeUB = some u → u - params.sizeLB.getD 0 + 1 = 1 → u ≥ 1)
+
+/-- OCTET STRING / PrintableString body: `parseOctetString` reads back what `appendOctetString` wrote -/
+theorem RT_octetString (pos : Nat) (bytes : Bytes) (params : Params) (bits : Bits)
+    (hok : SizedParamsOK params) (hlen : bytes.length < 16384)
+    (hv : params.valueExt = false)
+    (h : appendOctetString pos bytes params.sizeExt params.sizeLB params.sizeUB = .ok bits) :
+    RT bits pos (extBits params false >>= fun x => parseOctetString x.1 params.sizeLB params.sizeUB) bytes := by
+  obtain ⟨hext, hpair, hlbnn, hfix⟩ := hok
+  unfold appendOctetString at h
+  cases hsp : sizePreamble bytes.length params.sizeExt params.sizeLB params.sizeUB with
+  | error e => rw [hsp] at h; simp at h
+  | ok t =>
+    obtain ⟨pre, lb, ub, sr⟩ := t
+    rw [hsp] at h
+    dsimp only at h
+    obtain ⟨se, hpre, hse, hb1, hb3, hb2⟩ := sizePreamble_spec _ _ _ _ pre lb ub sr hext hpair hsp
+    have hx := RT_extBits_sized pos params false se (by simp [hv]) hse
+    rw [← hpre] at hx
+    have hlb0 : 0 ≤ lb := by
+      rw [← hb1]
+      unfold sizeBounds
+      split
+      · simp
+      · cases hl : params.sizeLB with
+        | none => cases params.sizeUB <;> simp
+        | some l => have := hlbnn l hl; cases params.sizeUB <;> simpa using this
+    split at h
+    · -- fixed size
+      rename_i hsr
+      have hub := hb2 hsr
+      split at h
+      · simp [err] at h
+      · rename_i hlenub
+        have hlenub' : (bytes.length : Int) = ub := by omega
+        split at h
+        · rename_i hgt2
+          simp only [Except.ok.injEq] at h
+          rw [← h, List.append_assoc]
+          refine RT_bind hx ?_
+          dsimp only
+          unfold parseOctetString
+          generalize hsb : sizeBounds se params.sizeLB params.sizeUB = sb at hb1 hb2 hb3 hub
+          obtain ⟨lb', ub', sr'⟩ := sb
+          simp only at hb1 hb3 hub
+          subst hb3 hub
+          dsimp only
+          have hubgt : ub' > 2 := by omega
+          simp only [hsr, if_true, hubgt]
+          refine RT_seq (RT_align _) ?_
+          have e : ub'.toNat = bytes.length := by omega
+          rw [e]
+          exact RT_takeOctets _ bytes
+        · rename_i hle2
+          simp only [Except.ok.injEq] at h
+          rw [← h]
+          refine RT_bind hx ?_
+          dsimp only
+          unfold parseOctetString
+          generalize hsb : sizeBounds se params.sizeLB params.sizeUB = sb at hb1 hb2 hb3 hub
+          obtain ⟨lb', ub', sr'⟩ := sb
+          simp only at hb1 hb3 hub
+          subst hb3 hub
+          dsimp only
+          have hubgt : ¬ ub' > 2 := by omega
+          simp only [hsr, if_true, hubgt, if_false]
+          have e : 8 * ub'.toNat = (bytesToBits bytes).length := by rw [bytesToBits_length]; omega
+          rw [e]
+          have hne : (bytesToBits bytes).length ≠ 0 := by
+            rw [bytesToBits_length]
+            -- a fixed size is at least one octet
+            have hu1 : ub' ≥ 1 := by
+              cases hu : params.sizeUB with
+              | none =>
+                unfold sizeBounds at hsb
+                rw [hu] at hsb
+                split at hsb <;> simp at hsb <;> omega
+              | some u =>
+                have := hfix u hu
+                unfold sizeBounds at hsb
+                rw [hu] at hsb
+                split at hsb
+                · simp at hsb; omega
+                · simp only [Prod.mk.injEq] at hsb
+                  obtain ⟨s1, s2, s3⟩ := hsb
+                  split at s3 <;> omega
+            omega
+          have := RT_bind (f := fun (b : Bits) => (pure (bitsToBytes b) : D Bytes)) (RT_getBits (bytesToBits bytes) (pos + pre.length) hne) (RT_pure _ _)
+          rw [List.append_nil, bitsToBytes_bytesToBits] at this
+          exact this
+    · -- variable size (unfragmented)
+      rename_i hsr
+      split at h
+      · simp [err] at h
+      · rename_i hge
+        have hfl := fragLoop_small 8 sr lb.toNat (bytes.length / 16384 + 1) (pos + pre.length) (bytes.length - lb.toNat)
+          (bytesToBits bytes) (by omega)
+        rw [hfl] at h
+        cases hL : appendLength (pos + pre.length) sr (bytes.length - lb.toNat) with
+        | error e => rw [hL] at h; simp at h
+        | ok lenBits =>
+          rw [hL] at h
+          dsimp only at h
+          have hloop := RT_octLoop (pos + pre.length) sr lb bytes
+          have hsum : bytes.length - lb.toNat + lb.toNat = bytes.length := by omega
+          rw [hsum] at h
+          have htake : (bytesToBits bytes).take (bytes.length * 8) = bytesToBits bytes := by
+            rw [List.take_of_length_le]; rw [bytesToBits_length]; omega
+          rw [htake] at h
+          have hres : bits = pre ++ (if bytes.length = 0 then lenBits else lenBits ++ alignBits (pos + pre.length + lenBits.length) ++ bytesToBits bytes) := by
+            by_cases h0 : bytes.length = 0
+            · simp only [h0, if_true, Except.ok.injEq] at h
+              simp [h0, ← h]
+            · simp only [h0, if_false, Except.ok.injEq] at h
+              simp [h0, ← h]
+          rw [hres]
+          refine RT_bind hx ?_
+          dsimp only
+          unfold parseOctetString
+          generalize hsb : sizeBounds se params.sizeLB params.sizeUB = sb at hb1 hb2 hb3
+          obtain ⟨lb', ub', sr'⟩ := sb
+          simp only at hb1 hb3
+          subst hb1 hb3
+          dsimp only
+          simp only [hsr, if_false]
+          apply RT_get
+          intro r
+          exact hloop (r.len + 1) lenBits hlb0 (by omega) (by omega) hL
+
+/-- at an octet boundary: the availability check of parseBitString passes and the bits are read -/
+theorem RT_checkedBits {α : Type} (pos : Nat) (content : Bits) (k : Bits → D α) (a : α) (b2 : Bits)
+    (hne : content.length ≠ 0) (hal : pos % 8 = 0)
+    (hk : RT b2 (pos + content.length) (k content) a) :
+    RT (content ++ b2) pos (D.get >>= fun r =>
+      if 8 * ((content.length + 7) / 8) > r.len then D.fail .error else getBits content.length >>= k) a := by
+  intro tail ht
+  rw [D_bind_apply]
+  have hget : D.get (mkRd (content ++ b2 ++ tail) pos) = .ok (mkRd (content ++ b2 ++ tail) pos, mkRd (content ++ b2 ++ tail) pos) := rfl
+  rw [hget]
+  dsimp only
+  have hlen : (mkRd (content ++ b2 ++ tail) pos).len = content.length + b2.length + tail.length := by
+    simp [mkRd, List.length_append]; omega
+  have hchk : ¬ 8 * ((content.length + 7) / 8) > (mkRd (content ++ b2 ++ tail) pos).len := by
+    rw [hlen]
+    rw [List.length_append] at ht
+    omega
+  simp only [hchk, if_false]
+  exact RT_bind (RT_getBits content pos hne) hk tail ht
+
+/-- one pass of the BIT STRING loop on an unfragmented string -/
+theorem RT_bitLoop (pos : Nat) (sr lb : Int) (content : Bits) (fuel : Nat) (lenBits : Bits)
+    (hlb : 0 ≤ lb) (hge : lb ≤ content.length) (hlen : content.length - lb.toNat < 16384)
+    (hL : appendLength pos sr (content.length - lb.toNat) = .ok lenBits) :
+    RT (if content.length = 0 then lenBits else lenBits ++ alignBits (pos + lenBits.length) ++ content) pos
+      (parseBitStringLoop sr lb (fuel + 1) [] 0) (bitsToBytes content, content.length) := by
+  unfold parseBitStringLoop
+  have hpl := RT_length pos sr (content.length - lb.toNat) lenBits hlen hL
+  have hraw : (((content.length - lb.toNat : Nat) : Int) + lb).toNat = content.length := by omega
+  by_cases h0 : content.length = 0
+  · have hb : content = [] := List.length_eq_zero_iff.mp h0
+    subst hb
+    simp only [List.length_nil, if_true]
+    have := RT_bind (f := fun (x : Nat × Bool) =>
+        (if ((x.1 : Int) + lb).toNat = 0 then pure (([] : Bytes), 0)
+          else do
+            parseAlignBits
+            let r ← D.get
+            if 8 * ((((x.1 : Int) + lb).toNat + 7) / 8) > r.len then D.fail .error
+            else do
+              let b ← getBits ((x.1 : Int) + lb).toNat
+              if x.2 = true then parseBitStringLoop sr lb fuel ([] ++ bitsToBytes b) (0 + ((x.1 : Int) + lb).toNat)
+              else pure ([] ++ bitsToBytes b, 0 + ((x.1 : Int) + lb).toNat) : D (Bytes × Nat)))
+      hpl (c := (bitsToBytes [], 0)) (b2 := []) (by
+        dsimp only
+        rw [hraw]
+        simp only [List.length_nil, if_true]
+        exact RT_pure _ _)
+    rw [List.append_nil] at this
+    exact this
+  · simp only [h0, if_false]
+    rw [List.append_assoc]
+    refine RT_bind hpl ?_
+    dsimp only
+    rw [hraw]
+    simp only [h0, if_false]
+    refine RT_seq (RT_align _) ?_
+    have hal : (pos + lenBits.length + (alignBits (pos + lenBits.length)).length) % 8 = 0 := by
+      simp only [alignBits, padLen, List.length_replicate]; omega
+    have := RT_checkedBits (pos + lenBits.length + (alignBits (pos + lenBits.length)).length) content
+      (fun b => (if false = true then parseBitStringLoop sr lb fuel ([] ++ bitsToBytes b) (0 + content.length)
+        else pure ([] ++ bitsToBytes b, 0 + content.length) : D (Bytes × Nat)))
+      (bitsToBytes content, content.length) [] h0 hal (by
+        simp only [Bool.false_eq_true, if_false, List.nil_append, Nat.zero_add]
+        exact RT_pure _ _)
+    rw [List.append_nil] at this
+    exact this
+
+theorem fixed_ub_ge_one (se : Bool) (params : Params) (lb' ub' sr' : Int)
+    (hfix : ∀ u, params.sizeUB = some u → u - params.sizeLB.getD 0 + 1 = 1 → u ≥ 1)
+    (hsb : sizeBounds se params.sizeLB params.sizeUB = (lb', ub', sr')) (hsr : sr' = 1) : ub' ≥ 1 := by
+  cases hu : params.sizeUB with
+  | none =>
+    unfold sizeBounds at hsb
+    rw [hu] at hsb
+    split at hsb <;> simp at hsb <;> omega
+  | some u =>
+    have := hfix u hu
+    unfold sizeBounds at hsb
+    rw [hu] at hsb
+    split at hsb
+    · simp at hsb; omega
+    · simp only [Prod.mk.injEq] at hsb
+      obtain ⟨s1, s2, s3⟩ := hsb
+      split at s3 <;> omega
+
+/-- BIT STRING body: `parseBitString` reads back the bits `appendBitString` wrote (the value's octets are
+    the zero-padded packing of those bits) -/
+theorem RT_bitString (pos : Nat) (bytes : Bytes) (len : Nat) (params : Params) (bits : Bits)
+    (hok : SizedParamsOK params) (hlen : len < 16384) (hv : params.valueExt = false)
+    (h : appendBitString pos bytes len params.sizeExt params.sizeLB params.sizeUB = .ok bits) :
+    RT bits pos (extBits params false >>= fun x => parseBitString x.1 params.sizeLB params.sizeUB)
+      (bitsToBytes ((bytesToBits bytes).take len), len) := by
+  obtain ⟨hext, hpair, hlbnn, hfix⟩ := hok
+  unfold appendBitString at h
+  split at h
+  · simp [Aper.panic] at h
+  · rename_i hbl
+    have hclen : ((bytesToBits bytes).take len).length = len := by
+      rw [List.length_take, bytesToBits_length]; omega
+    generalize hcontent : (bytesToBits bytes).take len = content at h hclen ⊢
+    cases hsp : sizePreamble len params.sizeExt params.sizeLB params.sizeUB with
+    | error e => rw [hsp] at h; simp at h
+    | ok t =>
+      obtain ⟨pre, lb, ub, sr⟩ := t
+      rw [hsp] at h
+      dsimp only at h
+      obtain ⟨se, hpre, hse, hb1, hb3, hb2⟩ := sizePreamble_spec _ _ _ _ pre lb ub sr hext hpair hsp
+      have hx := RT_extBits_sized pos params false se (by simp [hv]) hse
+      rw [← hpre] at hx
+      have hlb0 : 0 ≤ lb := by
+        rw [← hb1]
+        unfold sizeBounds
+        split
+        · simp
+        · cases hl : params.sizeLB with
+          | none => cases params.sizeUB <;> simp
+          | some l => have := hlbnn l hl; cases params.sizeUB <;> simpa using this
+      generalize hsb : sizeBounds se params.sizeLB params.sizeUB = sb at hb1 hb2 hb3
+      obtain ⟨lb', ub', sr'⟩ := sb
+      simp only at hb1 hb3 hb2
+      subst hb1 hb3
+      split at h
+      · -- fixed size
+        rename_i hsr
+        have hub := hb2 hsr
+        subst hub
+        have hub1 := fixed_ub_ge_one se params lb' ub' sr' hfix hsb hsr
+        split at h
+        · simp [err] at h
+        · rename_i hlenub
+          have hlenub' : (len : Int) = ub' := by omega
+          have hn : ub'.toNat = content.length := by omega
+          have hne : content.length ≠ 0 := by omega
+          split at h
+          · rename_i hgt2
+            simp only [Except.ok.injEq] at h
+            rw [← h, List.append_assoc]
+            refine RT_bind hx ?_
+            dsimp only
+            unfold parseBitString
+            rw [hsb]
+            dsimp only
+            have hs2 : (ub'.toNat + 7) / 8 > 2 := by omega
+            simp only [hsr, if_true, hs2]
+            refine RT_seq (RT_align _) ?_
+            have hal : (pos + pre.length + (alignBits (pos + pre.length)).length) % 8 = 0 := by
+              simp only [alignBits, padLen, List.length_replicate]; omega
+            rw [hn]
+            have := RT_checkedBits (pos + pre.length + (alignBits (pos + pre.length)).length) content
+              (fun b => (pure (bitsToBytes b, content.length) : D (Bytes × Nat))) (bitsToBytes content, content.length) []
+              hne hal (RT_pure _ _)
+            rw [List.append_nil, hclen] at this
+            rw [hclen]
+            exact this
+          · rename_i hle2
+            simp only [Except.ok.injEq] at h
+            rw [← h]
+            refine RT_bind hx ?_
+            dsimp only
+            unfold parseBitString
+            rw [hsb]
+            dsimp only
+            have hs2 : ¬ (ub'.toNat + 7) / 8 > 2 := by omega
+            simp only [hsr, if_true, hs2, if_false]
+            rw [hn]
+            have := RT_bind (f := fun (b : Bits) => (pure (bitsToBytes b, content.length) : D (Bytes × Nat)))
+              (RT_getBits content (pos + pre.length) hne) (RT_pure _ _)
+            rw [List.append_nil, hclen] at this
+            rw [hclen]
+            exact this
+      · -- variable size (unfragmented)
+        rename_i hsr
+        split at h
+        · simp [err] at h
+        · rename_i hge
+          have hfl := fragLoop_small 1 sr' lb'.toNat (len / 16384 + 1) (pos + pre.length) (len - lb'.toNat)
+            content (by omega)
+          rw [hfl] at h
+          cases hL : appendLength (pos + pre.length) sr' (len - lb'.toNat) with
+          | error e => rw [hL] at h; simp at h
+          | ok lenBits =>
+            rw [hL] at h
+            dsimp only at h
+            have hsum : len - lb'.toNat + lb'.toNat = len := by omega
+            rw [hsum] at h
+            have htake : content.take (len * 1) = content := by
+              rw [List.take_of_length_le]; omega
+            rw [htake] at h
+            have hres : bits = pre ++ (if content.length = 0 then lenBits else lenBits ++ alignBits (pos + pre.length + lenBits.length) ++ content) := by
+              rw [hclen]
+              by_cases h0 : len = 0
+              · simp only [h0, if_true, Except.ok.injEq] at h
+                simp [h0, ← h]
+              · simp only [h0, if_false, Except.ok.injEq] at h
+                simp [h0, ← h]
+            rw [hres]
+            refine RT_bind hx ?_
+            dsimp only
+            unfold parseBitString
+            rw [hsb]
+            dsimp only
+            simp only [hsr, if_false]
+            apply RT_get
+            intro r
+            have hloop := RT_bitLoop (pos + pre.length) sr' lb' content (r.len + 1) lenBits hlb0 (by omega) (by omega)
+              (by rw [hclen]; exact hL)
+            rw [hclen] at hloop ⊢
+            exact hloop
+
+/-! ### leaf level of parseField -/
+
+theorem RT_leaf_octs (pos : Nat) (bytes : Bytes) (params : Params) (bits : Bits)
+    (hok : SizedParamsOK params) (hlen : bytes.length < 16384) (hv : params.valueExt = false)
+    (h : appendOctetString pos bytes params.sizeExt params.sizeLB params.sizeUB = .ok bits) :
+    RT bits pos (leafDec .octs params) (.octs bytes) := by
+  have h1 := RT_octetString pos bytes params bits hok hlen hv h
+  unfold leafDec decLeaf
+  intro tail ht
+  have := h1 tail ht
+  rw [D_bind_apply] at this ⊢
+  cases hx : extBits params false (mkRd (bits ++ tail) pos) with
+  | error e => rw [hx] at this; simp at this
+  | ok p =>
+    obtain ⟨x, r1⟩ := p
+    rw [hx] at this
+    dsimp only at this ⊢
+    rw [D_bind_apply, this]
+    rfl
+
+theorem RT_leaf_str (pos : Nat) (bytes : Bytes) (params : Params) (bits : Bits)
+    (hok : SizedParamsOK params) (hlen : bytes.length < 16384) (hv : params.valueExt = false)
+    (h : appendOctetString pos bytes params.sizeExt params.sizeLB params.sizeUB = .ok bits) :
+    RT bits pos (leafDec .str params) (.str bytes) := by
+  have h1 := RT_octetString pos bytes params bits hok hlen hv h
+  unfold leafDec decLeaf
+  intro tail ht
+  have := h1 tail ht
+  rw [D_bind_apply] at this ⊢
+  cases hx : extBits params false (mkRd (bits ++ tail) pos) with
+  | error e => rw [hx] at this; simp at this
+  | ok p =>
+    obtain ⟨x, r1⟩ := p
+    rw [hx] at this
+    dsimp only at this ⊢
+    rw [D_bind_apply, this]
+    rfl
+
+theorem RT_leaf_bits (pos : Nat) (bytes : Bytes) (len : Nat) (params : Params) (bits : Bits)
+    (hok : SizedParamsOK params) (hlen : len < 16384) (hv : params.valueExt = false)
+    (hcanon : bitsToBytes ((bytesToBits bytes).take len) = bytes)
+    (h : appendBitString pos bytes len params.sizeExt params.sizeLB params.sizeUB = .ok bits) :
+    RT bits pos (leafDec .bits params) (.bits bytes len) := by
+  have h1 := RT_bitString pos bytes len params bits hok hlen hv h
+  rw [hcanon] at h1
+  unfold leafDec decLeaf
+  intro tail ht
+  have := h1 tail ht
+  rw [D_bind_apply] at this ⊢
+  cases hx : extBits params false (mkRd (bits ++ tail) pos) with
+  | error e => rw [hx] at this; simp at this
+  | ok p =>
+    obtain ⟨x, r1⟩ := p
+    rw [hx] at this
+    dsimp only at this ⊢
+    rw [D_bind_apply, this]
+    rfl
+
+theorem RT_leaf_bool (pos : Nat) (b : Bool) (params : Params)
+    (hs : params.sizeExt = false) (hv : params.valueExt = false) :
+    RT [b] pos (leafDec .bool params) (.bool b) := by
+  unfold leafDec
+  have hx := RT_extBits_none pos params false hs (by simp [hv])
+  have := RT_bind (f := fun x => decLeaf .bool params x.1 x.2) hx (c := .bool b) (b2 := [b]) (by
+    dsimp only
+    unfold decLeaf
+    have := RT_bind (f := fun (x : Nat) => (pure (Val.bool (decide (x = 1))) : D Val)) (RT_getBit (pos + 0) b) (RT_pure _ _)
+    rw [List.append_nil] at this
+    cases b <;> simpa using this)
+  simpa using this
 
 end Stgutg.Proofs.AperRT
